@@ -216,14 +216,14 @@ decode_tag_internal(ev_uint32_t *ptag, struct evbuffer *evbuf, int dodrain)
 		return (-1);
 
 	while (count++ < len) {
-		ev_uint8_t lower = *data++;
-		if (shift >= 28) {
-			/* Make sure it fits into 32 bits */
-			if (shift > 28)
-				return (-1);
-			if ((lower & 0x7f) > 15)
-				return (-1);
-		}
+		ev_uint8_t lower;
+		/* Make sure it fits into 32 bits; check before reading, since
+		 * only sizeof(number) + 1 bytes were pulled up. */
+		if (shift > 28)
+			return (-1);
+		lower = *data++;
+		if (shift == 28 && (lower & 0x7f) > 15)
+			return (-1);
 		number |= (lower & (unsigned)0x7f) << shift;
 		shift += 7;
 
